@@ -125,7 +125,29 @@ fn macro_args(m: &syn::Macro) -> J {
     }
 }
 
+fn has_cfg(attrs: &[syn::Attribute]) -> bool {
+    attrs.iter().any(|a| a.path().is_ident("cfg") || a.path().is_ident("cfg_attr"))
+}
+
+fn expr_attrs(e: &syn::Expr) -> &[syn::Attribute] {
+    use syn::Expr::*;
+    match e {
+        Array(x) => &x.attrs, Assign(x) => &x.attrs, Async(x) => &x.attrs, Await(x) => &x.attrs, Binary(x) => &x.attrs, Block(x) => &x.attrs,
+        Break(x) => &x.attrs, Call(x) => &x.attrs, Cast(x) => &x.attrs, Closure(x) => &x.attrs, Continue(x) => &x.attrs, Field(x) => &x.attrs,
+        ForLoop(x) => &x.attrs, Group(x) => &x.attrs, If(x) => &x.attrs, Index(x) => &x.attrs, Let(x) => &x.attrs, Lit(x) => &x.attrs,
+        Loop(x) => &x.attrs, Macro(x) => &x.attrs, Match(x) => &x.attrs, MethodCall(x) => &x.attrs, Paren(x) => &x.attrs, Path(x) => &x.attrs,
+        Range(x) => &x.attrs, Reference(x) => &x.attrs, Repeat(x) => &x.attrs, Return(x) => &x.attrs, Struct(x) => &x.attrs, Try(x) => &x.attrs,
+        Tuple(x) => &x.attrs, Unary(x) => &x.attrs, Unsafe(x) => &x.attrs, While(x) => &x.attrs,
+        _ => &[],
+    }
+}
+
 pub fn stmt(st: &syn::Stmt) -> J {
+    if let syn::Stmt::Local(l) = st {
+        if has_cfg(&l.attrs) {
+            return node("Expr", vec![("expr", node("Unsupported", vec![("text", s("statement under a cfg attribute"))])), ("semi", J::B(true))]);
+        }
+    }
     match st {
         syn::Stmt::Local(l) => {
             let (init, els) = match &l.init {
@@ -146,6 +168,9 @@ pub fn stmt(st: &syn::Stmt) -> J {
 
 pub fn expr(e: &syn::Expr) -> J {
     use syn::Expr::*;
+    if has_cfg(expr_attrs(e)) {
+        return node("Unsupported", vec![("text", s("expression under a cfg attribute"))]);
+    }
     match e {
         Lit(l) => node("Lit", vec![("lit", lit(&l.lit))]),
         Path(p) if p.qself.is_none() => node("Path", vec![("path", path(&p.path))]),
@@ -176,6 +201,9 @@ pub fn expr(e: &syn::Expr) -> J {
             "Match",
             vec![("e", expr(&m.expr)),
                  ("arms", J::A(m.arms.iter().map(|a| {
+                     if has_cfg(&a.attrs) {
+                         return J::O(vec![("pat", node("Unsupported", vec![("text", s("match arm under a cfg attribute"))])), ("guard", J::N), ("body", node("Unsupported", vec![("text", s("cfg"))]))]);
+                     }
                      J::O(vec![("pat", pat(&a.pat)), ("guard", match &a.guard { Some((_, g)) => expr(g), None => J::N }), ("body", expr(&a.body))])
                  }).collect()))],
         ),
@@ -239,6 +267,49 @@ pub fn file_items(file: &syn::File) -> J {
     let mut fns = vec![];
     let mut structs = vec![];
     let mut consts = vec![];
+    // everything outside function bodies that decides what the names inside them MEAN: macros, imports, traits and impl headers,
+    // type definitions, crate attributes.  The translator reads bodies under the pinned environment; a difference here is reported.
+    let mut env: Vec<J> = file.attrs.iter().filter(|a| !a.path().is_ident("doc")).map(|a| s(&format!("crate-attr {}", toks(a)))).collect();
+    fn walk_env(items: &[syn::Item], env: &mut Vec<J>) {
+        for it in items {
+            match it {
+                syn::Item::Macro(m) if !is_cfg_test(&m.attrs) => env.push(s(&format!("macro {}", toks(m)))),
+                syn::Item::Use(u) if !is_cfg_test(&u.attrs) => env.push(s(&format!("use {}", toks(&u.tree)))),
+                syn::Item::Trait(t) if !is_cfg_test(&t.attrs) => env.push(s(&format!("trait {}", toks(t)))),
+                syn::Item::TraitAlias(t) => env.push(s(&format!("trait-alias {}", toks(t)))),
+                syn::Item::Type(t) if !is_cfg_test(&t.attrs) => env.push(s(&format!("type {}", toks(t)))),
+                syn::Item::ExternCrate(t) => env.push(s(&format!("extern-crate {}", toks(t)))),
+                syn::Item::Struct(t) if !is_cfg_test(&t.attrs) => env.push(s(&format!("struct {} {} {} {}", t.ident, toks(&t.generics), toks(&t.fields),
+                    t.attrs.iter().filter(|a| !a.path().is_ident("doc")).map(|a| toks(a)).collect::<Vec<_>>().join(" ")))),
+                syn::Item::Enum(t) if !is_cfg_test(&t.attrs) => env.push(s(&format!("enum {}", toks(t)))),
+                syn::Item::Impl(im) if !is_cfg_test(&im.attrs) => {
+                    let tr = match &im.trait_ { Some((bang, p, _)) => format!("{}{}", if bang.is_some() { "!" } else { "" }, toks(p)), None => String::new() };
+                    let cfgs: Vec<String> = im.attrs.iter().filter(|a| !a.path().is_ident("doc")).map(|a| toks(a)).collect();
+                    env.push(s(&format!("impl {} [{}] for {} {} {}", toks(&im.generics), tr, toks(&im.self_ty),
+                                        match &im.generics.where_clause { Some(w) => toks(w), None => String::new() }, cfgs.join(" "))));
+                    for ii in &im.items {
+                        match ii {
+                            // which methods a trait impl overrides decides what the trait's provided methods and combinators do;
+                            // inherent methods of a Deref newtype shadow the target's methods of the same name
+                            syn::ImplItem::Fn(f) if (im.trait_.is_some() || toks(&im.self_ty).contains("AsyncFixedBuf")) && !is_cfg_test(&f.attrs) =>
+                                env.push(s(&format!("impl-fn [{}] {} :: {}", tr, toks(&im.self_ty), f.sig.ident))),
+                            syn::ImplItem::Type(t) => env.push(s(&format!("impl-type {} in {}", toks(t), toks(&im.self_ty)))),
+                            syn::ImplItem::Macro(m) => env.push(s(&format!("impl-macro {}", toks(m)))),
+                            _ => {}
+                        }
+                    }
+                }
+                syn::Item::Mod(m) if !is_cfg_test(&m.attrs) => {
+                    env.push(s(&format!("mod {} {}", m.ident, m.attrs.iter().filter(|a| !a.path().is_ident("doc")).map(|a| toks(a)).collect::<Vec<_>>().join(" "))));
+                    if let Some((_, items)) = &m.content {
+                        walk_env(items, env);
+                    }
+                }
+                _ => {}
+            }
+        }
+    }
+    walk_env(&file.items, &mut env);
     fn walk(items: &[syn::Item], fns: &mut Vec<J>, structs: &mut Vec<J>, consts: &mut Vec<J>) {
         for it in items {
             match it {
@@ -251,7 +322,11 @@ pub fn file_items(file: &syn::File) -> J {
                 syn::Item::Fn(f) if !is_cfg_test(&f.attrs) => {
                     let mut v = vec![("impl_self", J::N), ("impl_trait", J::N)];
                     v.append(&mut sig(&f.sig));
-                    v.push(("body", block(&f.block)));
+                    if has_cfg(&f.attrs) {
+                        v.push(("body", J::A(vec![node("Expr", vec![("expr", node("Unsupported", vec![("text", s("function under a cfg attribute"))])), ("semi", J::B(false))])])));
+                    } else {
+                        v.push(("body", block(&f.block)));
+                    }
                     fns.push(J::O(v));
                 }
                 syn::Item::Impl(im) if !is_cfg_test(&im.attrs) => {
@@ -267,7 +342,11 @@ pub fn file_items(file: &syn::File) -> J {
                             }
                             let mut v = vec![("impl_self", s(&self_ty)), ("impl_trait", match &tr { J::S(x) => J::S(x.clone()), _ => J::N })];
                             v.append(&mut sig(&f.sig));
-                            v.push(("body", block(&f.block)));
+                            if has_cfg(&f.attrs) || has_cfg(&im.attrs) {
+                                v.push(("body", J::A(vec![node("Expr", vec![("expr", node("Unsupported", vec![("text", s("function under a cfg attribute"))])), ("semi", J::B(false))])])));
+                            } else {
+                                v.push(("body", block(&f.block)));
+                            }
                             fns.push(J::O(v));
                         }
                     }
@@ -286,7 +365,7 @@ pub fn file_items(file: &syn::File) -> J {
         }
     }
     walk(&file.items, &mut fns, &mut structs, &mut consts);
-    J::O(vec![("fns", J::A(fns)), ("structs", J::A(structs)), ("consts", J::A(consts))])
+    J::O(vec![("fns", J::A(fns)), ("structs", J::A(structs)), ("consts", J::A(consts)), ("env", J::A(env))])
 }
 
 pub fn dump(paths: &[String], out_path: &str) -> Result<(), String> {
